@@ -332,7 +332,15 @@ class Run:
                 "records_checked": int(sum(nrec.values())), "runs": int(sum(vals.values())), "tlc_passes": passes,
                 "drifted_runs": len(drift), "drift": drift[:10]}
         if selftest:
-            # corrupt one record (selftest returns the changed line or None) in the first run it applies to
+            # corrupt one record (selftest returns the changed line or None) in the first run it applies to that the
+            # module covers and that did not drift in the regular pass (a drifted run is skipped from the drift on,
+            # a corruption behind that point would never be looked at)
+            drifted_lines = sorted(g["l"] for g in drift)
+            resets = [i for i, line in enumerate(lines) if '"ev":"Reset"' in line or '"ev": "Reset"' in line]
+            def run_of(i):
+                lo = max([x for x in resets if x <= i], default=0)
+                hi = min([x for x in resets if x > i], default=len(lines))
+                return lo, hi
             mut = list(lines)
             where = None
             for i, line in enumerate(mut):
@@ -341,20 +349,24 @@ class Run:
                 except Exception:
                     continue
                 ch = selftest(ev)
-                if ch is not None:
-                    mut[i] = json.dumps(ch) + "\n"
-                    where = i + 1
-                    break
-            if where is None:
-                raise Inconclusive("strict self-test of %s found no record to corrupt" % module)
-            cv = None
-            for line in lines[:where]:
-                try:
-                    ev = json.loads(line)
-                except Exception:
+                if ch is None:
                     continue
-                if ev.get("ev") == "Reset":
-                    cv = keyof(ev)
+                lo, hi = run_of(i)
+                if owner[i] is None or any(lo < d <= hi for d in drifted_lines):
+                    continue
+                mut[i] = json.dumps(ch) + "\n"
+                where = i + 1
+                break
+            if where is None:
+                if drift:
+                    info["selftest"] = {"skipped": "every run with a record to corrupt drifted in the regular pass"}
+                    self.strict.append(info)
+                    for g in drift[:5]:
+                        log("DRIFT (not a verdict): %s does not explain record %s (%s) of run %s at control point %s" % (module, g.get("l"), g.get("ev"), g.get("run"), g.get("pc")))
+                    self.notes.append("%s: %d run(s) drifted from the tier-I model (see coverage.strict_conformance)" % (module, len(drift)))
+                    return drift
+                raise Inconclusive("strict self-test of %s found no record to corrupt" % module)
+            cv = owner[where - 1]
             if cv not in vals:
                 raise Inconclusive("strict self-test of %s corrupted a record of a run the module does not cover" % module)
             # only the run that holds the corrupted record is validated again
